@@ -3157,7 +3157,7 @@ class SymExec:
             ev_.d['result'] = freeze(t)
             return t
         if isinstance(ff, tuple) and ff[:1] == ('attr',) and isinstance(ff[1], tuple) and ff[1][:2] == ('ref', 'modvar') and len(ff[1]) == 3 \
-                and ff[2] in ('debug', 'info', 'warning', 'error', 'exception', 'critical', 'log'):
+                and ff[2] in ('debug', 'info'):       # (warning and above are emitted - to stderr - under the stock logging configuration)
             from .props.common import is_module_logger
             if is_module_logger(self.facts, ff[1][2]):
                 # a line for the host's diagnostic channel: recorded, but not a call any rule has to reason about
